@@ -58,6 +58,7 @@ func drawFoCfg(c *Case) foCfg {
 	cfg.boxVals = cfg.variant != 2 && c.Weighted("boxed-values", 3, 1) == 1
 	cfg.noiseBackendCfg = c.Weighted("BackendConfig-next-to-Backend", 4, 1) == 1
 	cfg.backendDEA = []time.Duration{0, time.Second, time.Nanosecond}[c.Weighted("backend-DeleteExpiredAfter", 4, 1, 1)]
+	cfg.siblingFailover = c.Weighted("sibling-failover", 5, 1) == 1
 
 	return cfg
 }
